@@ -7,6 +7,7 @@ package main
 import (
 	"bufio"
 	"fmt"
+	"math"
 	"math/rand"
 	"os"
 	"runtime"
@@ -21,6 +22,7 @@ import (
 
 func init() {
 	commands["once"] = func(a []string) int { return nativeMain("once", a) }
+	commands["avtypes"] = func(a []string) int { return nativeMain("avtypes", a) }
 	commands["avfirst"] = func(a []string) int { return nativeMain("avfirst", a) }
 	commands["poolpc"] = func(a []string) int { return nativeMain("poolpc", a) }
 	commands["kmstress"] = func(a []string) int { return nativeMain("kmstress", a) }
@@ -84,6 +86,8 @@ func nativeMain(kind string, args []string) int {
 		case "avfirst":
 			runtime.GOMAXPROCS(8)
 			header, comment, lines = avFirst(r)
+		case "avtypes":
+			header, comment, lines = avTypes(r)
 		case "poolpc":
 			runtime.GOMAXPROCS(8)
 			header, comment, lines = poolProdCons(r)
@@ -491,7 +495,7 @@ func avFirst(r *rand.Rand) (string, string, []string) {
 		kinds[i] = r.Intn(4)
 	}
 	type rec struct {
-		inv, res int64
+		inv, res  int64
 		text, out string
 	}
 	recs := make([]rec, nw)
@@ -538,6 +542,117 @@ func avFirst(r *rand.Rand) (string, string, []string) {
 	i2 := fl.stamp()
 	fl.per[0] = append(fl.per[0], fastEv{i1, "inv 0 load"}, fastEv{i2, fmt.Sprintf("res 0 %d", v)})
 	return "av", fmt.Sprintf("avfirst workers=%d", nw), fl.lines()
+}
+
+// avTypes: one goroutine, store / swap / load on AtomicValue[T] for T other than int, where DIFFERENT values compare equal with == (+0 and -0 in a
+// float64, or in a struct with a float field) or the values are strings; values are reported by an injective code, so the register judged is over ints
+func avTypes(r *rand.Rand) (string, string, []string) {
+	fl := newFastLog(1)
+	var lines []fastEv
+	ev := func(format string, a ...any) { lines = append(lines, fastEv{fl.stamp(), fmt.Sprintf(format, a...)}) }
+	nops := 4 + r.Intn(8)
+	kind := r.Intn(3)
+	switch kind {
+	case 0:
+		vals := []float64{0, math.Copysign(0, -1), 1.5, -1.5}
+		code := func(f float64) int {
+			switch {
+			case f == 0 && !math.Signbit(f):
+				return 0
+			case f == 0:
+				return 101
+			case f > 0:
+				return 102
+			}
+			return 103
+		}
+		var av sync2.AtomicValue[float64]
+		for i := 0; i < nops; i++ {
+			v := vals[r.Intn(len(vals))]
+			switch r.Intn(4) {
+			case 0:
+				ev("inv 0 store %d", code(v))
+				av.Store(v)
+				ev("res 0 done")
+			case 1, 2:
+				ev("inv 0 swap %d", code(v))
+				old := av.Swap(v)
+				ev("res 0 %d", code(old))
+			default:
+				ev("inv 0 load")
+				ev("res 0 %d", code(av.Load()))
+			}
+		}
+	case 1:
+		type rec struct {
+			f float64
+			n int
+		}
+		vals := []rec{{0, 0}, {math.Copysign(0, -1), 0}, {0, 1}, {math.Copysign(0, -1), 1}}
+		code := func(x rec) int {
+			c := 2 * x.n
+			if math.Signbit(x.f) {
+				c++
+			}
+			if c == 0 {
+				return 0
+			}
+			return 100 + c
+		}
+		var av sync2.AtomicValue[rec]
+		for i := 0; i < nops; i++ {
+			v := vals[r.Intn(len(vals))]
+			switch r.Intn(4) {
+			case 0:
+				ev("inv 0 store %d", code(v))
+				av.Store(v)
+				ev("res 0 done")
+			case 1, 2:
+				ev("inv 0 swap %d", code(v))
+				old := av.Swap(v)
+				ev("res 0 %d", code(old))
+			default:
+				ev("inv 0 load")
+				ev("res 0 %d", code(av.Load()))
+			}
+		}
+	default:
+		vals := []string{"", "a", "b", "ab"}
+		code := func(x string) int {
+			for i, v := range vals {
+				if v == x {
+					if i == 0 {
+						return 0
+					}
+					return 100 + i
+				}
+			}
+			return -1
+		}
+		var av sync2.AtomicValue[string]
+		for i := 0; i < nops; i++ {
+			v := vals[r.Intn(len(vals))]
+			switch r.Intn(5) {
+			case 0:
+				ev("inv 0 store %d", code(v))
+				av.Store(v)
+				ev("res 0 done")
+			case 1, 2:
+				ev("inv 0 swap %d", code(v))
+				old := av.Swap(v)
+				ev("res 0 %d", code(old))
+			case 3:
+				w := vals[r.Intn(len(vals))]
+				ev("inv 0 cas %d %d", code(v), code(w))
+				ev("res 0 %v", av.CompareAndSwap(v, w))
+			default:
+				ev("inv 0 load")
+				ev("res 0 %d", code(av.Load()))
+			}
+		}
+	}
+	fl.per[0] = lines
+	return "av", fmt.Sprintf("avtypes kind=%d ops=%d", kind, nops), fl.lines()
 }
 
 // poolProdCons: producers Put fresh items (each exactly once), consumers Get and KEEP what they get: no item may come out twice
